@@ -16,3 +16,10 @@ package config
 //@   property C01 C18
 //@   ensures c.ReadTimeout != 0 ==> res == c.ReadTimeout
 //@   ensures c.ReadTimeout == 0 ==> res == DefaultReadTimeout
+
+//@ func (c *OllaConfig) GetReadTimeout
+//@   property C18
+//@   ensures true
+//@ func (c *BaseProxyConfig) GetProxyProfile
+//@   property C18
+//@   ensures true
